@@ -428,9 +428,9 @@ def cases(tier, seed):
     add("models1")                      # one axis: exhaustive over all subsets of the lattice
     nparts = 24 if T else 8
     for part in range(nparts):
-        add("models2", part=part, parts=nparts, max_extra=3, exhaustive=T, n=0 if T else 160)
+        add("models2", part=part, parts=nparts, max_extra=3, exhaustive=T, n=0 if T else 90)
     for part in range(12 if T else 4):
-        add("modelsN", part=part, n=250 if T else 80)
+        add("modelsN", part=part, n=250 if T else 60)
     nsp = 32 if T else 16
     for part in range(nsp):
         add("solver", part=part, parts=nsp, fine=T)
